@@ -166,7 +166,7 @@ fn main() {
             // (not under Miri, which insists that every thread is joined before the main thread ends)
             if ctx.mode != Mode::Miri {
                 let (hb, cc) = (heartbeat.clone(), cur_case.clone());
-                let limit_s: u64 = a.get("case-timeout").and_then(|s| s.parse().ok()).unwrap_or(match ctx.mode { Mode::Miri => 1500, Mode::Native => 150, _ => 400 });
+                let limit_s: u64 = a.get("case-timeout").and_then(|s| s.parse().ok()).unwrap_or(match ctx.mode { Mode::Miri => 1500, Mode::Native => 900, _ => 900 });
                 let t0 = std::time::Instant::now();
                 std::thread::spawn(move || loop {
                     std::thread::sleep(std::time::Duration::from_secs(2));
